@@ -59,6 +59,52 @@ func (rectArea) Gen(r *hx.Rng, n int, _ string, emit func(string)) {
 				shift = math.MinInt64 - lo + int64(r.Intn(2))
 			}
 			a[0], a[1], b[0], b[1] = a[0]+shift, a[1]+shift, b[0]+shift, b[1]+shift
+		} else if r.Chance(1, 7) {
+			// kind rw: Go int as it is — the model runs the same functions at Int64 with wrap-around, so inputs on which
+			// X+Width, the recomputed sizes of Intersect / Union / Expand or Width-insets overflow ARE generated here
+			kind = "rw"
+			ext := []int64{math.MinInt64, math.MinInt64 + 1, math.MaxInt64, math.MaxInt64 - 1, 1 << 62, -(1 << 62), 1<<62 - 1,
+				1<<62 + 1, -(1 << 62) - 1, 1 << 61, math.MaxInt64 - 7, math.MinInt64 + 7, 1 << 63 >> 1}
+			switch r.Intn(4) {
+			case 0: // the pair shifted so that its largest edge lies 1..12 beyond MaxInt (or its smallest below MinInt)
+				lo, hi := int64(math.MaxInt64), int64(math.MinInt64)
+				for _, g := range [][4]int64{a, b} {
+					for _, v := range []int64{g[0], g[0] + g[2], g[1], g[1] + g[3]} {
+						lo, hi = min(lo, v), max(hi, v)
+					}
+				}
+				var shift int64
+				if r.Bool() {
+					shift = math.MaxInt64 - hi + int64(r.Range(1, 12))
+				} else {
+					shift = math.MinInt64 - lo - int64(r.Range(1, 12))
+				}
+				a[0], a[1], b[0], b[1] = a[0]+shift, a[1]+shift, b[0]+shift, b[1]+shift
+			case 1: // origins and sizes at the limits of the type
+				for k := 0; k < 4; k++ {
+					if r.Chance(1, 3) {
+						a[k] = hx.Pick(r, ext)
+					}
+					if r.Chance(1, 3) {
+						b[k] = hx.Pick(r, ext)
+					}
+				}
+			case 2: // far apart: no X+Width wraps, but the differences of the edges do
+				a[0] = math.MinInt64 + int64(r.Range(0, 20))
+				b[0] = 1<<62 + int64(r.Range(-20, 20))
+				if r.Bool() {
+					a[1], b[1] = b[0], a[0]
+				}
+				if r.Bool() {
+					a, b = b, a
+				}
+			default: // one huge size
+				if r.Bool() {
+					a[2+r.Intn(2)] = hx.Pick(r, ext)
+				} else {
+					b[2+r.Intn(2)] = hx.Pick(r, ext)
+				}
+			}
 		} else if r.Chance(1, 10) { // large magnitudes well inside the range (2^40 .. 2^61)
 			shift := (int64(1) << uint(r.Range(40, 61))) * int64(1-2*r.Intn(2))
 			a[0], a[1], b[0], b[1] = a[0]+shift, a[1]+shift, b[0]+shift, b[1]+shift
@@ -147,7 +193,7 @@ func (rectArea) Run(line string) string {
 		return "bad-op"
 	}
 	switch f[0] {
-	case "ri":
+	case "ri", "rw":
 		return rectOpI(f[1], gx.Is(f[2:]))
 	case "rf":
 		return rectOpF(f[1], gx.Fs(f[2:]))
@@ -515,7 +561,8 @@ func contourWords(c []ipt, j uint) string {
 
 func (polyArea) Gen(r *hx.Rng, n int, _ string, emit func(string)) {
 	for i := 0; i < n; i++ {
-		op := hx.Pick(r, []string{"ccontains", "ccontains", "ccontains", "cbounds", "pcontains", "pevenodd", "pevenodd", "pbounds", "ptransform"})
+		op := hx.Pick(r, []string{"ccontains", "ccontains", "ccontains", "cbounds", "pcontains", "pevenodd", "pevenodd", "pbounds", "ptransform",
+			"ccontains", "ccontains", "ccontains", "cbounds", "pcontains", "pevenodd", "pevenodd", "pbounds", "ptransform", "pempty", "pclone", "cclone"})
 		nc := 1
 		if op[0] == 'p' {
 			nc = r.Range(0, 4)
@@ -527,8 +574,13 @@ func (polyArea) Gen(r *hx.Rng, n int, _ string, emit func(string)) {
 		var p ipt
 		for try := 0; ; try++ {
 			cs = cs[:0]
+			degenerate := op[0] == 'p' && r.Chance(1, 5) // only contours without area: no vertex, a point, a segment
 			for k := 0; k < nc; k++ {
-				cs = append(cs, genContour(r))
+				c := genContour(r)
+				if degenerate && len(c) > 2 {
+					c = c[:r.Intn(3)]
+				}
+				cs = append(cs, c)
 			}
 			p = ipt{int64(r.Range(-7, 9)), int64(r.Range(-7, 9))}
 			if r.Chance(1, 3) && len(cs) > 0 && len(cs[0]) > 0 { // on a vertex row / column
@@ -641,6 +693,46 @@ func (polyArea) Run(line string) string {
 		return untouched(b2s(p.ContainsEvenOdd(geom.NewPoint(head[0], head[1]))))
 	case f[1] == "pbounds" && len(head) == 0:
 		return untouched(rs(p.Bounds()))
+	case f[1] == "pempty" && len(head) == 0:
+		return untouched(b2s(p.Empty()))
+	case (f[1] == "pclone" || f[1] == "cclone" && len(p) == 1) && len(head) == 0:
+		// Clone: same values; nil for length 0 (polygon and each contour); no storage shared with the operand
+		var res poly.Polygon[float64]
+		if f[1] == "pclone" {
+			res = p.Clone()
+		} else {
+			res = poly.Polygon[float64]{p[0].Clone()}
+		}
+		shape := "nil"
+		if f[1] == "cclone" {
+			shape = "len1"
+		} else if res != nil {
+			shape = "len" + strconv.Itoa(len(res))
+		}
+		flags := make([]byte, len(res))
+		for i, c := range res {
+			flags[i] = 'v'
+			if c == nil {
+				flags[i] = 'n'
+			}
+		}
+		out := polyStr(res)
+		state := "same"
+		if polyStr(p) != orig {
+			state = "changed"
+		}
+		for _, c := range res {
+			for i := range c {
+				c[i] = geom.NewPoint(12345.5, -54321.25)
+			}
+		}
+		for i := range res {
+			res[i] = nil
+		}
+		if polyStr(p) != orig {
+			state = "aliased"
+		}
+		return state + " " + shape + " " + string(flags) + ": " + out
 	case f[1] == "ptransform" && len(head) == 6:
 		before := polyStr(p)
 		res := p.Transform(mat(head))
@@ -668,5 +760,6 @@ func (polyArea) Run(line string) string {
 }
 
 func main() {
-	hx.Main(map[string]hx.Area{"rect": rectArea{}, "matrix": matArea{}, "poly": polyArea{}, "rotate": rotArea{}, "floatspec": fspecArea{}})
+	hx.Main(map[string]hx.Area{"rect": rectArea{}, "matrix": matArea{}, "poly": polyArea{}, "rotate": rotArea{}, "floatspec": fspecArea{},
+		"arith": arithArea{}, "compose": composeArea{}})
 }
